@@ -276,6 +276,19 @@ def unit_c19_table():
             return None
         res.append(sweep("C19/table/a dialect's statement does not depend on statements generated before", shape_cases(), history_check, "bounded",
                          "4 dialects: statement in a fresh process vs after the three other dialects in one process; field names that are keywords in only some dialects", function="sql.SqlFactory", unit="C19.table"))
+        # keyword membership, spot-checked against the vendors' reserved-word lists (independent of the tables built by the dialect constructors)
+        SPOT = {"ANSI": "select table order group year level key user date value", "DB2": "index plan cluster select table order group year comment key user value type label summary",
+                "Transact-SQL": "file index top percent plan select table order group key user", "PL/SQL": "index cluster nowait mode share select table group year level comment date value type hash"}
+        WORDS = sorted(set(" ".join(SPOT.values()).split()) | {"customer_id", "surname", "amount"})
+        def spot_check(d):
+            from cutplace import interface, sql
+            cid = interface.create_cid_from_string("d,format,delimited\n" + "".join("f,%s,,x,,Text\n" % (w.title() if i % 3 == 0 else w) for i, w in enumerate(WORDS)))
+            ddl = sql.SqlFactory(cid, "t", sql.SQL_NAME_TO_DIALECT_MAP[d]).create_table_statement()
+            names = [l.strip().split(" ")[0] for l in ddl.splitlines()[1:-1]]
+            want = [('"%s"' % n) if n.lower() in SPOT[d].split() else n for n in [(w.title() if i % 3 == 0 else w) for i, w in enumerate(WORDS)]]
+            return None if names == want else {"expected": "%s quotes exactly its reserved words: %r" % (d, [n for n in want if n.startswith('"')]), "observed": [n for n in names if n.startswith('"')]}
+        res.append(sweep("C19/table/reserved words of each dialect (spot list from the vendors' documentation) are quoted, other names are not", shape_cases(), spot_check, "bounded",
+                         "%d field names (30 reserved in some dialect but not in others, 3 reserved nowhere; mixed case) x 4 dialects" % len(WORDS), function="sql.SqlFactory + dialect keyword tables", unit="C19.table"))
         # K-8 witnesses
         w = []
         try:
